@@ -27,6 +27,7 @@ type verifRig41 struct {
 	session nfsv4.Sessionid4
 	client  nfsv4.Clientid4
 	slotSeq [2]nfsv4.Sequenceid4
+	uncached bool // requests ask the server not to keep their reply (sa_cachethis = false)
 }
 
 func verifNewRig41(files ...string) *verifRig41 {
@@ -103,7 +104,7 @@ func (r *verifRig41) login(owner string, verifier byte) {
 // sequenceRaw issues SEQUENCE(slot, seqid) + ops.
 func (r *verifRig41) sequenceRaw(slot nfsv4.Slotid4, seqid nfsv4.Sequenceid4, ops ...nfsv4.NfsArgop4) *nfsv4.Compound4res {
 	all := append([]nfsv4.NfsArgop4{&nfsv4.NfsArgop4_OP_SEQUENCE{Opsequence: nfsv4.Sequence4args{
-		SaSessionid: r.session, SaSequenceid: seqid, SaSlotid: slot, SaHighestSlotid: 1, SaCachethis: true}}}, ops...)
+		SaSessionid: r.session, SaSequenceid: seqid, SaSlotid: slot, SaHighestSlotid: 1, SaCachethis: !r.uncached}}}, ops...)
 	return r.raw(all...)
 }
 
